@@ -22,6 +22,12 @@ Written from the DOCUMENTATION, not from the lexer:
 * the property statement: "the body of a raw block stays verbatim" (so
   trim_blocks does not act after ``{% raw %}``), "variable tags are never
   affected by the automatic options".
+* whitespace class: the docs never define "whitespace" (they enumerate "spaces,
+  tabs, newlines etc."); the model uses the Unicode White_Space characters for
+  every rule -- what '-' removes on a side, and (minus line breaks) what may
+  fill the line before a tag for lstrip_blocks.  C12 generates only space/tab/
+  line breaks, where this coincides with the docs' "tabs and spaces"; C39 also
+  generates the other characters (reasoning in vt/checks/c39.py ASSUMPTIONS).
 
 A *skeleton* is a strictly alternating list
 
@@ -45,8 +51,28 @@ from __future__ import annotations
 import re
 
 NL_RE = re.compile(r"\r\n|\r|\n")
-WS = " \t\n"          # whitespace alphabet of the generators (after normalisation)
-BLANK = " \t"         # what lstrip_blocks removes: "tabs and spaces"
+#: "whitespace" = the characters with the Unicode White_Space property (Unicode
+#: Character Database, PropList.txt) -- an engine-independent definition.  '-' is
+#: documented to remove "the whitespaces" before/after the tag without restriction.
+#: The C12 generators only ever emit space/tab/LF/CR/CRLF; C39 also emits the others.
+WS = ("\t\n\x0b\x0c\r \x85\xa0\u1680" + "".join(chr(c) for c in range(0x2000, 0x200B))
+      + "\u2028\u2029\u202f\u205f\u3000")
+#: line breaks of a template source: "\n", "\r\n", "\r" only (Lexer.tokeniter: "Only \n,
+#: \r\n and \r are treated as line breaks"); after normalisation only "\n" remains
+LINEBREAKS = "\n\r"
+#: what lstrip_blocks removes: the whitespace between the start of a line and the tag.  The
+#: docs name "tabs and spaces"; the property statement says "the whitespace".  ONE whitespace
+#: class is used for all rules (see vt/checks/c39.py ASSUMPTIONS for the reasoning); for the
+#: space/tab-only sources of C12 this is exactly "tabs and spaces".
+BLANK = "".join(c for c in WS if c not in LINEBREAKS)
+#: whitespace other than space, tab and line breaks (form feed, vertical tab, NEL, NBSP, em
+#: space, line separator, ideographic space, ...)
+EXOTIC = frozenset(WS) - frozenset(" \t\n\r")
+
+
+def has_exotic(s: str) -> bool:
+    return not EXOTIC.isdisjoint(s)
+
 
 DEFAULT_DELIMS = {"bs": "{%", "be": "%}", "vs": "{{", "ve": "}}", "cs": "{#", "ce": "#}"}
 
@@ -120,6 +146,7 @@ def run_class(run: str, at_start: bool) -> tuple:
         i > 0,
         "" if tail == "" else ("blank" if tail.strip(BLANK) == "" else "text"),
         "\t" in run,
+        has_exotic(run),
     )
 
 
@@ -224,7 +251,7 @@ def predict(skel, trim_blocks=False, lstrip_blocks=False, keep_trailing_newline=
         p.gaps.append({
             "A": None if A is None else (A["k"], A["r"]),
             "B": None if B is None else (B["k"], B["l"]),
-            "run": s, "kept": kept, "rl": rl, "rr": rr, "start": off,
+            "run": s, "kept": kept, "rl": rl, "rr": rr, "start": off, "a": a, "b": b,
             "raw_body": bool(A is not None and A["k"] == "raw_open"),
         })
         p.pieces.append({"type": "text", "start": off, "end": off + len(s)})
